@@ -160,6 +160,17 @@ package jd
 //@   ensures_bounded ret0 == ""
 //@   carries C18
 
+// Process-level stand-in for the top-level binary with -v2=false (C14); the verifier builds the
+// binary from the working tree and exports its path.
+//@ contract verifV1CLICheck
+//@   bounded
+//@   needs_cli
+//@   cap 400 4000
+//@   universe fi []int{0, 1, 2, 3, 4, 5, 6, 7}
+//@   requires validNode(a) && validNode(b)
+//@   ensures_bounded ret0 == ""
+//@   carries C14
+
 //@ contract verifV1RandMerge
 //@   bounded
 //@   universe a verifRandANF(TIER)
